@@ -16,7 +16,8 @@ SPECIAL_NUMS = ["0", "1", "-1", "2", "3", "0.5", "-0.5", "1.5", "2.25", "100", "
                 "65535", "65536", "2147483647", "2147483648", "-2147483648", "4294967295", "4294967296",
                 "9007199254740992", "9007199254740993", "9223372036854775807", "-9223372036854775808",
                 "18446744073709551615", "0.125", "1e2", "1024", "0.0009765625", "9223372036854775808", "18446744073709549568",
-                "-9223372036854775808", "1e19",
+                "-9223372036854775808", "1e19", "9223372036854775808", "18446744073709551616", "9223372036854775808", "2147483648",
+                "4294967296", "-9223372036854775809", "9223372036854774784", "9223372036854775807",
                 # large integers that are exactly float64 (m * 2^k): the float quotient of multipleOf rounds here
                 "36028797018963968", "1152921504606846976", "3458764513820540928", "1000000000000000000", "4611686018427387904",
                 "-36028797018963968", "72057594037927936"]
@@ -103,6 +104,16 @@ def mutate_leaf(rng, j):
     if isinstance(j, Num):
         f = j.frac()
         c = rng.random()
+        if f.denominator == 1 and abs(f) >= 128 and c < 0.3:
+            # the numbers machine arithmetic confuses with f: f wrapped into a k-bit signed / unsigned word, the saturated
+            # conversion, the negation
+            k = rng.choice([8, 16, 32, 64, 64, 64])
+            n = f.numerator
+            cands = [((n + 2**(k - 1)) % 2**k) - 2**(k - 1), n % 2**k, max(-2**(k - 1), min(2**(k - 1) - 1, n)), -n,
+                     max(0, min(2**k - 1, n))]
+            cands = [x for x in cands if x != n]
+            if cands:
+                return Num(str(rng.choice(cands)))
         if c < 0.4:
             return Num(dec(f + 1))
         if c < 0.7 and f.denominator == 1 and abs(f) >= 2**53:
